@@ -155,7 +155,11 @@ MonStep(m, e, l) ==
                        [] OTHER -> mA
               ELSE mA
         ids == {e.done[i].id : i \in 1..Len(e.done)}
-        mQ1 == IF mQ.runId # 0 /\ mQ.runId \in ids THEN [mQ EXCEPT !.nout = 0, !.runId = 0, !.link.on = FALSE] ELSE mQ
+        \* a time synchronisation that is cancelled when it is about to start (no system time) never starts: it leaves
+        \* the queue with its outcome
+        cancelled == {e.done[i].id : i \in {j \in 1..Len(e.done) : e.done[j].res = "SystemTimeNotAvailable"}}
+        mQ0 == [mQ EXCEPT !.Q = SelectSeq(@, LAMBDA r : r.id \notin cancelled)]
+        mQ1 == IF mQ0.runId # 0 /\ mQ0.runId \in ids THEN [mQ0 EXCEPT !.nout = 0, !.runId = 0, !.link.on = FALSE] ELSE mQ0
         mI0 == Walk(mQ1, e, e.cb, e.ltx, l)
         mI == IF mI0.runId # 0 /\ mI0.runId \in ids THEN [mI0 EXCEPT !.nout = 0, !.runId = 0, !.link.on = FALSE] ELSE mI0
         mE == LinkExpire(mI, LineEnd(e))
